@@ -262,6 +262,17 @@ func ZZ_C06_fresh() {
 	}
 	zzsym.Assert(e.store.height == I-1+uint64(n), "fresh-chain-height")
 	zzsym.Region("initial-height-above-one", I > 1)
+	// the node may be stopped and started again before the DA layer accepted
+	// anything (outage from launch, or a restart within the first DA block
+	// time): no watermark has been recorded yet
+	if zzsym.Bool("restart-before-any-acceptance") {
+		e.store = e.store.reopen()
+		m, err = NewManager(context.Background(), e.signer, e.cfg, e.gen, e.store, e.exec, e.seq, da, m0logger(), nil, nil, e.hb, e.db, NopMetrics(), 1, 1, DefaultManagerOptions())
+		zzsym.Assert(err == nil, "restart-new-manager")
+		if err != nil {
+			return
+		}
+	}
 	pend, err := m.pendingHeaders.getPendingHeaders(ctx)
 	zzsym.Assert(err == nil, "fresh-chain-pending-headers-readable")
 	zzsym.Assert(len(pend) > 0 && pend[0].Height() == I, "fresh-chain-first-pending-is-initial-height")
